@@ -125,7 +125,7 @@ func drawSource(r *sim.Run) *objSource {
 		var p *work.Production
 		var err error
 		r.Guard("packager", func() {
-			p, err = work.Package(r, work.PackOpts{MaxTracks: 3, MaxSegs: 2, MaxFrags: 2, MaxSamples: 5, Foreign: true, NoMeta: true})
+			p, err = work.Package(r, work.PackOpts{MaxTracks: 3, MaxSegs: 2, MaxFrags: 2, MaxSamples: 5, Foreign: true, NoMeta: true, MixIntervalFull: true})
 		})
 		if err != nil {
 			r.Violate("packager-error", "a documented-valid API history failed: %v", err)
